@@ -1,6 +1,6 @@
 """Which theorems, cases, projection and oracles decide each property."""
 from . import props as P
-from .engine import proj_behaviour, proj_physical, proj_ordered, proj_alloc
+from .engine import proj_behaviour, proj_physical, proj_ordered, proj_alloc, proj_ownership
 
 
 def T(mod, *names):
@@ -36,13 +36,13 @@ REGISTRY["C19"] = dict(
     cases=P.cases_C19, projection=proj_physical, oracles=[P.o_addmod, P.o_spec, P.o_no_defect_panic, P.o_ledger],
 )
 
-REGISTRY["C03"] = dict(level="proof", theorems=T("C03", "C03_push_back", "C03_push_front", "C03_pop_back", "C03_pop_front", "C03_remove", "C03_truncate_back", "C03_truncate_front", "C03_push_many", "C03_drain", "C03_consequences", "C03_final_drop", "C03_history", "C03_history_ledger", "C03_history_full"), cases=P.cases_C03, projection=proj_behaviour,
+REGISTRY["C03"] = dict(level="proof", theorems=T("C03", "C03_push_back", "C03_push_front", "C03_pop_back", "C03_pop_front", "C03_remove", "C03_truncate_back", "C03_truncate_front", "C03_push_many", "C03_drain", "C03_consequences", "C03_final_drop", "C03_history", "C03_history_ledger", "C03_history_full"), cases=P.cases_C03, projection=proj_ownership,
                        oracles=[P.o_spec, P.o_leak, P.o_no_defect_panic])
 REGISTRY["C04"] = dict(level="proof", cross_oracles=[P.x_hash_layout_independent], theorems=T("C04", "C04_indep", "C04_push_back", "C04_push_front", "C04_pop_back", "C04_pop_front", "C04_remove", "C04_swap_remove_back", "C04_eq", "C04_history"), cases=P.cases_C04, projection=proj_behaviour,
                        oracles=[P.o_spec, P.o_ledger, P.o_views, P.o_no_defect_panic])
-REGISTRY["C05"] = dict(level="proof", theorems=T("C05", "C05_drop_range", "C05_truncate_back", "C05_truncate_front", "C05_clear", "C05_drain_drop", "C05_fill", "C05_clone_from", "C05_from_array"), cases=P.cases_C05, projection=proj_behaviour,
+REGISTRY["C05"] = dict(level="proof", theorems=T("C05", "C05_drop_range", "C05_truncate_back", "C05_truncate_front", "C05_clear", "C05_drain_drop", "C05_fill", "C05_clone_from", "C05_from_array"), cases=P.cases_C05, projection=proj_ownership,
                        oracles=[P.o_ledger, P.o_views, P.o_no_defect_panic])
-REGISTRY["C06"] = dict(level="proof", theorems=T("C06", "C06_clone_in_extend_from_slice", "C06_closure", "C06_iterator", "C06_eq_readonly", "C06_clone_in_fill_spare", "C06_clone_in_fill", "C06_clone_in_clone_from", "C06_clone_in_clone"), cases=P.cases_C06, projection=proj_behaviour,
+REGISTRY["C06"] = dict(level="proof", theorems=T("C06", "C06_clone_in_extend_from_slice", "C06_closure", "C06_iterator", "C06_eq_readonly", "C06_clone_in_fill_spare", "C06_clone_in_fill", "C06_clone_in_clone_from", "C06_clone_in_clone"), cases=P.cases_C06, projection=proj_ownership,
                        oracles=[P.o_leak, P.o_views, P.o_no_defect_panic])
 REGISTRY["C07"] = dict(level="proof", theorems=T("C07", "C07_get", "C07_front", "C07_back", "C07_nth_back", "C07_index", "C07_slot_holds", "C07_slots_distinct", "C07_as_slices", "C07_contents", "C07_write", "C07_make_contiguous"), cases=P.cases_C07, projection=proj_behaviour,
                        oracles=[P.o_spec, P.o_views, P.o_ledger, P.o_documented_panics])
@@ -50,7 +50,7 @@ REGISTRY["C08"] = dict(level="proof", theorems=T("C08", "C08_over_range", "C08_w
                        oracles=[P.o_spec, P.o_views, P.o_leak, P.o_no_defect_panic])
 REGISTRY["C09"] = dict(level="proof", theorems=T("C09", "C09_new", "C09_next", "C09_next_back", "C09_len", "C09_drop"), cases=P.cases_C09, projection=proj_behaviour,
                        oracles=[P.o_spec, P.o_views, P.o_leak, P.o_no_defect_panic])
-REGISTRY["C10"] = dict(level="proof", theorems=T("C10", "C10_forget_safe"), cases=P.cases_C10, projection=proj_behaviour,
+REGISTRY["C10"] = dict(level="proof", theorems=T("C10", "C10_forget_safe"), cases=P.cases_C10, projection=proj_ownership,
                        oracles=[P.o_spec, P.o_views, P.o_ledger, P.o_no_defect_panic])
 REGISTRY["C11"] = dict(level="proof", theorems=T("C11", "C11_swap_ok", "C11_swap_panics_i", "C11_swap_panics_j", "C11_index", "C11_range_ok", "C11_range_panics", "C11_drain_panics", "C11_backfill_total"), cases=P.cases_C11, projection=proj_behaviour,
                        oracles=[P.o_spec, P.o_documented_panics, P.o_views])
